@@ -163,7 +163,7 @@ func main() {
 		scale = 12
 	}
 	g := &gen{r: r.Fork()}
-	for i := 0; i < 1300*scale; i++ {
+	for i := 0; i < 800*scale; i++ {
 		e.add(g.randomIngest())
 	}
 	g = &gen{r: r.Fork()}
@@ -171,17 +171,17 @@ func main() {
 		e.add(g.randomSub())
 	}
 	g = &gen{r: r.Fork()}
-	for i := 0; i < 900*scale; i++ {
+	for i := 0; i < 700*scale; i++ {
 		e.add(g.randomRecv())
 	}
 	g = &gen{r: r.Fork()}
-	for i := 0; i < 900*scale; i++ {
+	for i := 0; i < 700*scale; i++ {
 		e.add(g.randomCli())
 	}
 	// mutation stream
 	g = &gen{r: r.Fork()}
 	tried, kept := 0, 0
-	for kept < 500*scale && tried < 20000*scale {
+	for kept < 400*scale && tried < 20000*scale {
 		tried++
 		n := g.mutatedNoti()
 		if n == nil {
@@ -200,7 +200,7 @@ func main() {
 	meta.Extra["mutated_notifications_tried"] = tried
 	meta.Extra["mutated_notifications_kept"] = kept
 	tried, kept = 0, 0
-	for kept < 400*scale && tried < 20000*scale {
+	for kept < 300*scale && tried < 20000*scale {
 		tried++
 		rp := g.mutatedResp()
 		if rp == nil {
